@@ -61,7 +61,9 @@ TraceHandlerCall ==
    \* the model also predicts what a Probe finds and what a body read returns (fidelity: a difference marks the run diverged)
    /\ IsEv("H") /\ Follow(/\ HandlerCall(Line.c)
                           /\ ("caps" \in DOMAIN Line => {Line.caps[i] : i \in DOMAIN Line.caps} = Caps(cfg))
-                          /\ ("read" \in DOMAIN Line => Line.read = Line.sent))
+                          \* the first read returns what the client sent, a later one finds the body at EOF
+                          /\ ("read" \in DOMAIN Line =>
+                                Line.read = IF \E i \in DOMAIN oScript : oScript[i].c = "RB" THEN "" ELSE Line.sent))
    /\ oScript' = Append(oScript, Line.c)
    /\ UNCHANGED <<caseIdx, cScript, oRaw, oErrs, oLogs, oInvoked, oReal, oEnd>>
 
